@@ -95,8 +95,9 @@ static int line_to_instr(struct instr *instr_data, char *filtered_asm_str) {
     FAIL_IF_MSG(IN_RANGE(instr_data->cons, MAX_UNSIGNED_32BIT + 1UL,
                          NEG32BIT + MAX_SIGNED_32BIT),
                 "jump displacement does not fit in 32 bits\n");
-    if (IN_RANGE(instr_data->cons, NEG80_32BIT, MAX_UNSIGNED_32BIT) ||
-        (instr_data->cons <= MAX_SIGNED_8BIT && !instr_data->keyword.is_long))
+    if ((IN_RANGE(instr_data->cons, NEG80_32BIT, MAX_UNSIGNED_32BIT) ||
+         instr_data->cons <= MAX_SIGNED_8BIT) &&
+        !instr_data->keyword.is_long)
       instr_data->keyword.is_short = true;
     else if (instr_data->cons > MAX_SIGNED_8BIT &&
              instr_data->keyword.is_short) {
